@@ -68,7 +68,7 @@ def run(pid, tier):
         events = validate_persist(traces, tag, V)
         level = "model_checking"
         rule = ("one trace = one save -> load of a real object: every serialisable type (Dual, Dual2, Cal, UnionCal, NamedCal, FXRates, Curve with every interpolation rule and order, "
-                "PPSpline of the three types solved or not) x {plain JSON, tagged from_json entry point, bincode}; doubles are random finite bit patterns (17 significant digits, "
+                "PPSpline of the three types solved or not) x {plain JSON, tagged from_json entry point, bincode, the pickle protocol __new__(*__getnewargs__()) + __setstate__(__getstate__()) through the pymethods themselves}, plus the small pickled types (Convention, Modifier, Ccy, FXRate); doubles are random finite bit patterns (17 significant digits, "
                 "extreme exponents, subnormals, -0.0), variable names include quotes, backslashes, spaces and the empty string; projection before / after and the library's == are compared by TLC")
         nontrivial = events
         bind_trace, bind_mut = (rt, "rt")
